@@ -111,6 +111,60 @@ def table_types(rep: Report, prog: Program) -> None:
                   f"{ci.path}:{getattr(v, 'lineno', ci.node.lineno)}")
 
 
+def lazy_publication(rep: Report, prog: Program, rid: str, classes: Tuple[str, ...]) -> None:
+    """R20.9: units, prefixes, dimensions and logarithmic units are interned - one object, every thread.  A method that fills in
+    attributes on first use (`if self._x is None: self._x = ..; self._y = ..`) publishes through its guard attribute: whoever
+    finds the guard set skips the block.  The guard therefore has to be the *last* store of the block; set first, a second
+    thread reads the other attributes while they still hold their defaults."""
+    n = 0
+    for q, fi in sorted(prog.functions.items()):
+        if fi.cls not in classes or fi.module != "" or fi.name in ("__init__", "__new__", "__setstate__") or fi.is_static or fi.is_classmethod:
+            continue
+        me = fi.params()[0] if fi.params() else None
+        if me is None:
+            continue
+
+        def self_attr(e: ast.AST) -> Optional[str]:
+            return e.attr if isinstance(e, ast.Attribute) and isinstance(e.value, ast.Name) and e.value.id == me else None
+        for node in ast.walk(fi.node):
+            if not isinstance(node, ast.If):
+                continue
+            guards = set()
+            for x in ast.walk(node.test):
+                if isinstance(x, ast.Compare) and len(x.ops) == 1 and isinstance(x.ops[0], (ast.Is, ast.Eq)) and self_attr(x.left) \
+                        and isinstance(x.comparators[0], ast.Constant) and x.comparators[0].value is None:
+                    guards.add(self_attr(x.left))
+                if isinstance(x, ast.UnaryOp) and isinstance(x.op, ast.Not):
+                    if self_attr(x.operand):
+                        guards.add(self_attr(x.operand))
+                    if isinstance(x.operand, ast.Call) and ast.unparse(x.operand.func) == "hasattr" and len(x.operand.args) == 2 \
+                            and isinstance(x.operand.args[0], ast.Name) and x.operand.args[0].id == me and isinstance(x.operand.args[1], ast.Constant):
+                        guards.add(str(x.operand.args[1].value))
+            if not guards:
+                continue
+            stores: List[Tuple[int, str, ast.stmt]] = []
+            for i, st in enumerate(node.body):
+                for x in ast.walk(st):
+                    tg = x.targets if isinstance(x, ast.Assign) else ([x.target] if isinstance(x, (ast.AugAssign, ast.AnnAssign)) else [])
+                    for t in tg:
+                        for el in (t.elts if isinstance(t, (ast.Tuple, ast.List)) else [t]):
+                            a = self_attr(el)
+                            if a:
+                                stores.append((i, a, st))
+            gset = [(i, a, st) for i, a, st in stores if a in guards]
+            if not gset:
+                continue
+            n += 1
+            first_guard = min(i for i, _, _ in gset)
+            late = [(i, a, st) for i, a, st in stores if a not in guards and i > first_guard]
+            rep.check(rid, f"{q}:lazy {','.join(sorted(guards))}", not late,
+                      f"{q} fills in {sorted({a for _, a, _ in stores})} on first use and sets the guard `{me}.{gset[0][1]}` before "
+                      f"`{ast.unparse(late[0][2])[:60] if late else ''}`: {fi.cls} objects are shared by every thread, and a second caller that finds the guard set "
+                      "uses the other attribute while it still holds its default (a decibel level comes out as 2.0 instead of 20)", fi.where(gset[0][2]))
+    if n == 0:
+        rep.ok(rid, "package", note=f"no lazily initialised attributes on {', '.join(classes)} objects")
+
+
 def run(rep: Report) -> None:
     prog = Program()
     resolver = Resolver(prog)
@@ -124,6 +178,8 @@ def run(rep: Report) -> None:
     rep.rule("R20.3", "no other test-then-write on an intern table outside the constructors (Dimension.define's definition-time "
              "resize is listed)", floor=1)
     rep.rule("R20.8", "a lock taken with acquire() is released in a finally on every path", floor=1)
+    rep.rule("R20.9", "lazy initialisation on an interned object publishes its guard attribute last", floor=1)
+    lazy_publication(rep, prog, "R20.9", ("Dimension", "Prefix", "Unit", "Logarithm", "LogarithmicUnit"))
     rep.rule("R20.7", "no function assigns a class attribute of the core classes at run time (shared state outside the dict tables)", floor=1)
     rep.rule("R20.6", "self._initialized = True comes after the assignments of the key attributes on every path of __init__ (it is what lets other threads skip __init__)", floor=3)
     rep.rule("R20.5", "in the interning classes' __init__ every attribute an intern key is built from is assigned once on each path (no provisional "
